@@ -8,6 +8,8 @@ package pubsub
 import (
 	"context"
 	"fmt"
+	"log/slog"
+	"os"
 	"sort"
 	"sync"
 	"time"
@@ -141,6 +143,10 @@ func (n *vNet) NewNodeIP(name, ip, router string, opts ...Option) (*vNode, error
 	ctx, cancel := context.WithCancel(context.Background())
 	nd := &vNode{net: n, h: h, tr: &vTrace{}, ctx: ctx, cancel: cancel, name: name}
 	all := append([]Option{WithRawTracer(nd.tr)}, opts...)
+	if os.Getenv("VERIF_LIBLOG") != "" {
+		lg := slog.New(&vLogHandler{c: n.c, name: name})
+		all = append(all, WithLogger(lg), WithRPCLogger(lg))
+	}
 	var err error
 	switch router {
 	case "gossipsub":
@@ -366,3 +372,27 @@ func (s *vScores) Copy() map[peer.ID]float64 {
 	}
 	return out
 }
+
+// vLogHandler routes the library's own log records into the case log (VERIF_LIBLOG=1).
+type vLogHandler struct {
+	c     *vCase
+	name  string
+	attrs []slog.Attr
+}
+
+func (h *vLogHandler) Enabled(context.Context, slog.Level) bool { return true }
+func (h *vLogHandler) Handle(_ context.Context, r slog.Record) error {
+	s := fmt.Sprintf("LIB[%s] %s %s", h.name, r.Level, r.Message)
+	r.Attrs(func(a slog.Attr) bool {
+		v := a.Value.String()
+		if len(v) > 80 {
+			v = v[:80]
+		}
+		s += fmt.Sprintf(" %s=%s", a.Key, v)
+		return true
+	})
+	h.c.Logf("%s", s)
+	return nil
+}
+func (h *vLogHandler) WithAttrs(a []slog.Attr) slog.Handler { return h }
+func (h *vLogHandler) WithGroup(string) slog.Handler        { return h }
